@@ -44,7 +44,7 @@ func verifFlowRun(t *testing.T, mode string) {
 	cfg := vu.ConfigFromEnv()
 	vu.Run(cfg, func(r *vu.Rng, i int) []string { return vfGen(r, i, mode) },
 		func(ops []string, o *vu.Out) {
-			synctest.Test(t, func(t *testing.T) { vfExec(t, ops, o) })
+			synctest.Test(t, func(t *testing.T) { vfExec(t, mode, ops, o) })
 		})
 }
 
@@ -91,6 +91,7 @@ type vfConn struct {
 	obs        []string
 	fcSeen     map[uint32]bool
 	goawayFC   bool
+	mode       string
 }
 
 func (c *vfConn) sortedStreams() []*vfStream {
@@ -211,8 +212,8 @@ func (c *vfConn) drain() {
 	}
 }
 
-func vfNewConn(t *testing.T, o *vu.Out, connWin, streamWin int64) *vfConn {
-	c := &vfConn{t: t, o: o, streams: map[uint32]*vfStream{}, fcSeen: map[uint32]bool{}}
+func vfNewConn(t *testing.T, o *vu.Out, mode string, connWin, streamWin int64) *vfConn {
+	c := &vfConn{t: t, o: o, mode: mode, streams: map[uint32]*vfStream{}, fcSeen: map[uint32]bool{}}
 	c.st = newServerTester(t, nil, func(s *Server) {
 		s.MaxUploadBufferPerConnection = int32(connWin)
 		s.MaxUploadBufferPerStream = int32(streamWin)
@@ -242,16 +243,21 @@ func (c *vfConn) residueCheck(where string) {
 	case !ok:
 		c.o.Fail("", fmt.Sprintf("%s: %d bytes of connection-level credit were never returned (peer view %d, configured %d, over-refund %d)", where, residue, c.conn, c.configured, c.over))
 	}
+	// The two findings below belong to C10; the C11 check only counts them.
 	if ok && residue > 0 {
 		c.o.Stat("quiesce:residue")
-		c.o.Fail(sigResidue, fmt.Sprintf("%s: peer's view %d is %d below the configured window %d: credit withheld by inflowMinRefresh batching", where, c.conn, residue, c.configured))
 	}
 	if c.over > 0 {
 		c.o.Stat("quiesce:over-refund")
-		c.o.Fail(sigOverRefund, fmt.Sprintf("%s: %d body bytes read by a handler after closeStream were refunded twice; peer's view %d vs configured %d", where, c.over, c.conn, c.configured))
 	}
 	if ok && residue == 0 && c.over == 0 {
 		c.o.Stat("quiesce:exact")
+	}
+	if ok && residue > 0 && c.mode == "c10" {
+		c.o.Fail(sigResidue, fmt.Sprintf("%s: peer's view %d is %d below the configured window %d: credit withheld by inflowMinRefresh batching", where, c.conn, residue, c.configured))
+	}
+	if c.over > 0 && c.mode == "c10" {
+		c.o.Fail(sigOverRefund, fmt.Sprintf("%s: %d body bytes read by a handler after closeStream were refunded twice; peer's view %d vs configured %d", where, c.over, c.conn, c.configured))
 	}
 	// white-box cross-check on the server's own counters
 	if c.st.sc != nil {
@@ -332,7 +338,7 @@ func (c *vfConn) classifyData(sid uint32, ln, pad int64, es bool) uint32 {
 	return 0
 }
 
-func vfExec(t *testing.T, ops []string, o *vu.Out) {
+func vfExec(t *testing.T, mode string, ops []string, o *vu.Out) {
 	var c *vfConn
 	for _, op := range ops {
 		base := strings.TrimSpace(strings.SplitN(op, "=>", 2)[0])
@@ -363,7 +369,7 @@ func vfExec(t *testing.T, ops []string, o *vu.Out) {
 				o.Op(base, "ok")
 				continue
 			}
-			c = vfNewConn(t, o, vfAtoi(f[1]), vfAtoi(f[2]))
+			c = vfNewConn(t, o, mode, vfAtoi(f[1]), vfAtoi(f[2]))
 			o.Stat("op:reset")
 			c.residueCheck("after the initial WINDOW_UPDATE")
 			emit()
@@ -620,7 +626,14 @@ func vfGen(r *vu.Rng, i int, mode string) []string {
 		if len(streams) == 0 {
 			return openStream()
 		}
-		return streams[r.Intn(len(streams))]
+		s := streams[r.Intn(len(streams))]
+		for k := 0; k < 3 && (s.closed || !s.handler); k++ { // prefer streams that are still alive
+			s = streams[r.Intn(len(streams))]
+		}
+		if (s.closed || !s.handler) && len(streams) < 8 && r.Chance(2, 3) {
+			return openStream()
+		}
+		return s
 	}
 	dataOp := func(s *gstream) {
 		w := conn.avail
@@ -769,7 +782,7 @@ func vfGen(r *vu.Rng, i int, mode string) []string {
 				closeSim(s)
 			}
 		case k < 92:
-			if len(streams) < 5 {
+			if len(streams) < 6 {
 				openStream()
 			} else {
 				dataOp(s)
